@@ -50,7 +50,8 @@ theorem exec_args : ∀ (es : List Expr) (cs : List Instr), compileArgs es = som
             simpa [evalArgsW, hE, hEs, Nat.add_assoc] using this
 
 /-- names the generated code loads from the prelude / builtins -/
-def reserved (x : String) : Bool := x = "Nat" || x = "Int" || x = "Str" || x = "Bool" || x = "print"
+def reserved (x : String) : Bool :=
+  x = "Nat" || x = "Int" || x = "Str" || x = "Bool" || x = "print" || x = "RightOpenRange"
 
 /-- no chunk defines a reserved name (real variable names are mangled `::x_L1`, so this always holds for
     code objects the compiler emits) -/
@@ -61,18 +62,23 @@ def NoShadow : List Stmt → Prop
 
 theorem EnvOk.cons {env : Env} (h : EnvOk env) {x : String} (hx : reserved x = false) (v : Val) : EnvOk ((x, v) :: env) := by
   simp only [reserved, Bool.or_eq_false_iff, decide_eq_false_iff_not] at hx
-  obtain ⟨⟨⟨⟨h1, h2⟩, h3⟩, h4⟩, h5⟩ := hx
-  constructor
+  obtain ⟨⟨⟨⟨⟨h1, h2⟩, h3⟩, h4⟩, h5⟩, h6⟩ := hx
+  refine ⟨?_, ?_, ?_⟩
   · intro c
     have := h.1 c
     cases c <;> simp_all [Env.get, Cls.name] <;> (intro h; simp_all)
-  · have := h.2
+  · have := h.2.1
     simp only [Env.get]
     split
     · rename_i heq; exact absurd heq.symm h5
     · exact this
+  · have := h.2.2
+    simp only [Env.get]
+    split
+    · rename_i heq; exact absurd heq.symm h6
+    · exact this
 
-theorem EnvOk.nil : EnvOk [] := ⟨fun _ => rfl, rfl⟩
+theorem EnvOk.nil : EnvOk [] := ⟨fun _ => rfl, rfl, rfl⟩
 
 theorem execW_clean_irrel : ∀ (ss : List Stmt) (env : Env) (out : List (List Char)) (c1 c2 : Bool),
     (execW ss env out c1).1 = (execW ss env out c2).1
